@@ -80,6 +80,21 @@ class TLCResult:
                     wall_s=round(self.wall, 2))
 
 
+def brief(out, n=40):
+    """The informative part of a TLC failure: error/exception lines with a little context,
+    without the (possibly huge) state dump."""
+    lines = out.splitlines()
+    keep, left = [], 0
+    for ln in lines:
+        if re.search(r"Error|xception|Attempted|evaluating|^\d+\. Line", ln) and not ln.startswith("State "):
+            left = 4
+        if left > 0 and not re.match(r"^(State \d+:|/\\ |\w+ = )", ln):
+            keep.append(ln); left -= 1
+        if len(keep) >= n:
+            break
+    return "\n".join(keep) if keep else out[-2000:]
+
+
 _TLC_SEQ = [0]
 
 
@@ -95,7 +110,7 @@ def tlc(module_path, cfg=None, workers=None, timeout=900, env=None, simulate=Non
     md = os.path.join(BUILD, "tlc", "%s-%d-%d" % (mod[:-4], os.getpid(), _TLC_SEQ[0]))
     os.makedirs(os.path.dirname(md), exist_ok=True)
     shutil.rmtree(md, ignore_errors=True)
-    jopts = ["-XX:+UseParallelGC", "-Xmx" + heap]
+    jopts = ["-XX:+UseParallelGC", "-Xmx" + heap, "-Xss256m"]
     if dfs_queue:
         jopts.append("-Dtlc2.tool.queue.IStateQueue=StateDeque")
     cmd = ["java"] + jopts + ["-cp",
@@ -151,7 +166,7 @@ def tlc(module_path, cfg=None, workers=None, timeout=900, env=None, simulate=Non
         elif re.search(r"Error: Property (\S+) is violated", out):
             r.violation = re.search(r"Error: Property (\S+) is violated", out).group(1)
         else:
-            raise ToolError("TLC failed (rc=%s) on %s %s:\n%s" % (rc, mod, cfg, out[-5000:]))
+            raise ToolError("TLC failed (rc=%s) on %s %s:\n%s" % (rc, mod, cfg, brief(out)))
     if coverage:
         for mc in re.finditer(r"<(\w+) line \d+, col \d+ to line \d+, col \d+ of module \w+>: (\d+):(\d+)", out):
             a = mc.group(1)
